@@ -179,8 +179,8 @@ def sortFilter (v : Val) : R Val :=
   | _ => rerr "cannot sort"
 
 /-- filterSplit of a scalar (`toString` first): a one-byte separator is `strings.Split`, a longer
-    ASCII separator splits at EACH of its characters (a regexp class — a `-` inside would make a range:
-    unsupported), the empty separator gives the UTF-8 sequences (`strings.Split(s, "")`); no positive
+    ASCII separator splits at EACH of its characters (a regexp class with every metacharacter and the
+    dash escaped), the empty separator gives the UTF-8 sequences (`strings.Split(s, "")`); no positive
     limit (`Flt.splitV`, `Flt.explodeStr`) -/
 def splitFilter (v : Val) (args : List Val) : R Val :=
   match v.toFlt?, argsToFlt args with
@@ -190,9 +190,7 @@ def splitFilter (v : Val) (args : List Val) : R Val :=
       if Flt.splitLimitOk fa then .ok (.list ((Flt.explodeStr x.toStr).map Val.str))
       else unsup "split with a positive limit"
     | [_] => resOfFlt (Flt.splitV (.sc x) fa)
-    | set =>
-      if set.contains 45 then unsup "split: '-' in a multi-character separator is a regexp range"
-      else resOfFlt (Flt.splitV (.sc x) fa)
+    | _ => resOfFlt (Flt.splitV (.sc x) fa)
   | _, _ => unsup "split of a container"
 
 /-- filterCapitalize / filterTitle (the same body) of a scalar, ASCII text only (as upper / lower) -/
